@@ -72,9 +72,11 @@ func c04Case(c *core.Ctx) *core.Result {
 				d.AddParagraph("⟦new⟧ " + gen.SafeString(r))
 			case 2:
 				name = "AddImageFromData"
-				serial++
-				im := gen.MakeImage([]string{"png", "jpeg", "gif"}[r.Intn(3)], 660000+c.Case*10+serial, 3, 3)
-				d.AddImageFromData(im.Data, []string{"image1.png", "x.jpg", "图.gif"}[r.Intn(3)], imgFormat(im.Format), im.W, im.H, nil)
+				for k, n := 0, r.Range(1, 4); k < n; k++ { // several pictures: the new names must step over every existing media name
+					serial++
+					im := gen.MakeImage([]string{"png", "png", "jpeg", "gif"}[r.Intn(4)], 660000+c.Case*10+serial, 3, 3)
+					d.AddImageFromData(im.Data, []string{"image1.png", "x.jpg", "图.gif"}[r.Intn(3)], imgFormat(im.Format), im.W, im.H, nil)
+				}
 			case 3:
 				name = "AddHeader/Footer"
 				if r.Bool() {
